@@ -288,7 +288,9 @@ func (w *world) body(sc scenario) (*obs, func(), *harness.MemStore) {
 	for i := range opts {
 		// the application's list may well contain WithState (a fresh value per execution)
 		opts[i] = []nodeenrollment.Option{nodeenrollment.WithState(harness.Struct(map[string]any{"listener-wide": "state"})), nodeenrollment.WithLogger(hclog.NewNullLogger()),
-			nodeenrollment.WithMaximumServerLedActivationTokenLifetime(time.Hour), nodeenrollment.WithNotBeforeClockSkew(-5 * time.Minute)}[i%4]
+			nodeenrollment.WithMaximumServerLedActivationTokenLifetime(time.Hour), nodeenrollment.WithNotBeforeClockSkew(-5 * time.Minute),
+			// "use the default" spelled out, as an unset configuration value would be
+			nodeenrollment.WithCertificateLifetime(0)}[i%5]
 	}
 	seam := &seamReader{armed: map[int]bool{}}
 	if sc.RandSeam {
@@ -525,6 +527,8 @@ func scenarios(c *engine.Ctx) []scenario {
 		// pair filter below leaves this pair out; the thorough tier has it in every shape)
 		out = append(out, scenario{Clients: []string{kFetchUnknown, kFetchUnknown}, OptLen: 1, Spare: 1})
 	}
+	// every kind of option the harness puts into the application's list (five), with spare capacity
+	out = append(out, scenario{Clients: []string{kAuth, kAuth}, OptLen: 5, Spare: 1}, scenario{Clients: []string{kToken, kFetchUnknown}, OptLen: 5, Spare: 1})
 	// with the random-source seam: a first poll runs to its end (whatever the
 	// listener keeps from one handshake for the next is in place), then two overlap
 	out = append(out, scenario{Clients: []string{kFetchUnknown, kFetchUnknown, kFetchUnknown}, OptLen: 1, Spare: 1, RandSeam: true},
